@@ -22,10 +22,10 @@ CHECKS = {
     "C02": ("exploration", "seq", "runtime monitor: post-condition on hex_digests / get_hex_digest against hashlib over long histories on one store instance",
             "Every store_object / get_hex_digest result of 20-60 call histories on ONE long-lived instance is checked: key set == five defaults + the algorithms named in that call; values == hashlib; all 12 algorithms under every accepted spelling. History dependence is only reachable by running histories, hence exploration.",
             "4/C02", SEQ_NOTE),
-    "C03": ("exploration", "seq", "runtime monitor: before/after directory abstraction around every re-bind attempt in bounded-exhaustive and random call sequences",
+    "C03": ("exploration", "seq", "runtime monitor: before/after directory abstraction around every re-bind attempt in bounded-exhaustive and random call sequences; linearizability oracle over scheduler-controlled triples with two binders of one pid",
             "All sequences up to length 3/4 over a 20-op menu that contain a store/tag on an already bound pid, plus random sequences with all data kinds and validation arguments; each attempt must raise an already-exists error and leave the abstraction unchanged (except a new unreferenced object).",
             "4/C03", SEQ_NOTE),
-    "C04": ("exploration", "seq", "runtime monitor: retrieve every bound pid byte-for-byte after every call over all delete orders of sharing pids with interleaved hostile calls",
+    "C04": ("exploration", "seq", "runtime monitor: retrieve every bound pid byte-for-byte after every call over all delete orders of sharing pids with interleaved hostile calls; invariant at a hook (no object unlinked while its cid list is non-empty) under scheduler-controlled interleavings",
             "k=2..4 prefix-related pids share one object; every delete order x noise call (wrong-data delete_if_invalid, rejected stores, metadata) is run and every still-bound pid is retrieved after each call; last delete must remove the object.",
             "4/C04", SEQ_NOTE),
     "C06": ("exploration", "seq", "runtime monitor: independent verdict oracle (hashlib + len) over the full product of content x algorithm x spelling x checksum case x size x prior state x entry point",
@@ -56,13 +56,13 @@ CONC_NOTE = ("Trusted: the cooperative scheduler and probe in hsverif/ (every sh
              "CPython 3.12, tmpfs scratch. The sequential specification is the implementation itself run without preemption, so "
              "defects already present sequentially are left to C03-C06/C11. Held = on the schedules counted in the evidence file.")
 CHECKS.update({
-    "C07": ("exploration", "conc", "runtime monitor: linearizability oracle over scheduler-controlled interleavings of the real code (preemption-bounded DFS + random walks + PCT)",
+    "C07": ("exploration", "conc", "runtime monitor: linearizability oracle over scheduler-controlled interleavings of the real code (preemption-bounded DFS at file-system/lock granularity, random/PCT/focus schedules at statement granularity via sys.monitoring, free-running threads + Wing-Gong in the thorough tier)",
             "Every pair (and sampled triples) of object calls sharing a pid/cid from 5 start states is executed under ALL schedules with <=1 (quick) / <=2 (thorough) preemptions at file-system-call and lock-operation granularity; each observed (outcomes, final state) must match a sequential order. Known non-linearizable mechanisms are listed in known_findings.json.",
             "4/C07", CONC_NOTE),
-    "C08": ("exploration", "conc", "runtime monitor: state-based deadlock / leaked-lock detector inside the scheduler + follow-up calls, over controlled schedules and injected I/O faults",
+    "C08": ("exploration", "conc", "runtime monitor: state-based deadlock / leaked-lock detector inside the scheduler + follow-up calls, over controlled schedules (file-system/lock and statement granularity) and injected I/O faults",
             "The scheduler owns every blocking primitive, so 'unfinished thread and none runnable' is observed, not timed out; locked-identifier lists must be empty at quiescence and follow-up calls must complete, after every explored schedule and after every injected fault.",
             "4/C08", CONC_NOTE),
-    "C12": ("exploration", "conc", "runtime monitor: linearizability oracle (incl. reader bytes) over scheduler-controlled interleavings of metadata calls",
+    "C12": ("exploration", "conc", "runtime monitor: linearizability oracle (incl. reader bytes) over scheduler-controlled interleavings of metadata calls (preemption-bounded DFS + statement-level random/focus schedules)",
             "All pairs / sampled triples of store/retrieve/delete_metadata and delete_object on one pid from 4 start states under all schedules with <=1/2 preemptions; the reader is a real client that reads in two chunks with a scheduling point in between.",
             "4/C12", CONC_NOTE),
 })
@@ -72,19 +72,19 @@ FAULT_NOTE = ("Trusted: the probe (run-time interposition on os.*, open, fcntl.f
               "CPython 3.12, tmpfs scratch. Crash = process death with the page cache intact (power loss, fsync ordering, NFS "
               "are out of reach of any in-process monitor). Sites are enumerated completely for the listed calls and start states only.")
 CHECKS.update({
-    "C09": ("fault_enumeration", "fault", "runtime monitor: observer reading every permanent file after EVERY file-system operation of a writer (single calls and scheduler-controlled concurrent writers)",
+    "C09": ("fault_enumeration", "fault", "runtime monitor: observer reading every permanent file after EVERY file-system operation of a writer (single calls and scheduler-controlled concurrent writers), staging-file ownership monitor, free-running reader thread (thorough)",
             "Complete enumeration of the operation boundaries of 30 (start state, call) cases plus observed concurrent schedules; at each boundary every permanent object / metadata / pid-ref file is read and checked (digest == name, one supplied version, one complete cid, presence changes at most once).",
             "4/C09", FAULT_NOTE),
     "C10": ("fault_enumeration", "fault", "runtime monitor: fork + os._exit() before each mutating operation in turn, then a fresh instance inspects and recovers the store",
             "Complete enumeration of crash points (every mutating operation incl. buffer-flush and flush-before-truncate points) of 23 (start state, call) cases; bystanders, interrupted pid and the delete+store recovery are checked on a fresh instance.",
             "4/C10", FAULT_NOTE),
-    "C13": ("fault_enumeration", "fault", "runtime monitor: OSError injected at each fault site in turn (EIO/ENOSPC/EACCES, one-off and persistent), post-state diffed against the fault-free run, retry executed",
+    "C13": ("fault_enumeration", "fault", "runtime monitor: OSError injected at each fault site in turn (EIO/ENOSPC/EACCES, one-off and persistent per operation class), post-state diffed against the fault-free run, retry executed; probe audited against strace on every run",
             "Complete enumeration of fault sites x 3 errnos x 2 persistence modes of 23 (start state, call) cases; outcome vs effect, unbound-and-retryable pid, previous metadata version, bystanders.",
             "4/C13", FAULT_NOTE),
 })
 
 CHECKS.update({
-    "C16": ("exploration", "conc", "runtime monitor: (a) differential run threading vs multiprocessing mode, (b) linearizability oracle over scheduler-controlled interleavings of the *_mp code paths, (c) Wing-Gong history checker over real forked worker processes",
+    "C16": ("exploration", "conc", "runtime monitor: (a) differential run threading vs multiprocessing mode, (b) linearizability oracle over scheduler-controlled interleavings of the *_mp code paths, (c) Wing-Gong history checker over real forked worker processes, (d) fault-path equivalence between the modes",
             "Mode equivalence is checked after every call of random sequences; the duplicated *_mp synchronisation code is explored under the cooperative scheduler with the C07/C12/C08 oracles; real forked workers contend on shared pids/cids and their recorded histories are checked for linearizability, exit status, hangs and leftover locks. Cross-process interleavings are provoked (micro-delays), not controlled.",
             "4/C16", CONC_NOTE + " Part (b) replaces multiprocessing conditions/manager lists by scheduler-owned ones; part (c) uses the real ones."),
 })
